@@ -83,6 +83,11 @@ def generate(seed, tier, index):
         ups.append({"op": "up_raw", "len": up_len, "pattern": "random", "format": ".raw"})
     if rng.random() < 0.25 and not big:
         ups.append({"op": "partial_down", "len": max(L, 300), "cut": rng.random()})
+    if rng.random() < 0.35 and not big:
+        # the payload is installed silently (reset_value, as a Read handler or a background refresh would) and then
+        # re-published by something that is not an assignment: a state change or a vector/group re-enable
+        ups.append({"op": "down_reset", "len": rng.choice([1, 7, L if L else 3, 500]), "pattern": "random", "format": rng.choice([".r1", ".fits", ""]),
+                    "via": rng.choice(["state", "venable", "genable"])})
     if rng.random() < 0.25:
         ups.append({"op": "partial_up", "len": max(min(L, 1200), 50), "cut": rng.random()})
     rng.shuffle(ups)
@@ -164,8 +169,8 @@ def execute(scen):
                 break
             op = st["op"]
             L = st["len"]
-            if op == "down":
-                data = payload(scen["seed"] + L, L, st["pattern"])
+            if op in ("down", "down_reset"):
+                data = payload(scen["seed"] + L + (13 if op == "down_reset" else 0), L, st["pattern"])
                 fmt = st["format"]
                 facts = {"direction": "download", "len": L}
                 ctx = f"download of {L} bytes format {fmt!r} frag {net['frag']}"
@@ -173,7 +178,23 @@ def execute(scen):
                     p.mark = len(p.received)
                 if not st.get("other_unset", True):
                     apply_step(stack, {"op": "d_reset", "dev": "CAM", "vec": "IMG", "el": "B1", "value": {"blob_hex": "0a0b", "format": ".o"}})
-                res = apply_step(stack, {"op": "d_assign", "dev": "CAM", "vec": "IMG", "el": "B0", "value": {"blob_hex": data.hex(), "format": fmt}})
+                if op == "down_reset":
+                    res = apply_step(stack, {"op": "d_reset", "dev": "CAM", "vec": "IMG", "el": "B0", "value": {"blob_hex": data.hex(), "format": fmt}})
+                    if not res.error:
+                        if st["via"] == "state":
+                            serial[0] += 1
+                            res = apply_step(stack, {"op": "d_state", "dev": "CAM", "vec": "IMG", "value": ["Busy", "Ok", "Alert"][serial[0] % 3]})
+                        elif st["via"] == "venable":
+                            apply_step(stack, {"op": "d_venable", "dev": "CAM", "vec": "IMG", "value": False})
+                            sim.settle()
+                            res = apply_step(stack, {"op": "d_venable", "dev": "CAM", "vec": "IMG", "value": True})
+                        else:
+                            apply_step(stack, {"op": "d_genable", "dev": "CAM", "group": "MAIN", "value": False})
+                            sim.settle()
+                            res = apply_step(stack, {"op": "d_genable", "dev": "CAM", "group": "MAIN", "value": True})
+                    probes["republished_after_reset:" + st["via"]] = probes.get("republished_after_reset:" + st["via"], 0) + 1
+                else:
+                    res = apply_step(stack, {"op": "d_assign", "dev": "CAM", "vec": "IMG", "el": "B0", "value": {"blob_hex": data.hex(), "format": fmt}})
                 if res.error:
                     viol.append({"clause": "C08.down", "detail": f"publishing raised {res.error}; {ctx}", "facts": facts})
                     break
@@ -185,7 +206,12 @@ def execute(scen):
                 if esc:
                     viol.append({"clause": "C08.hang", "detail": f"escaped {esc[:2]}; {ctx}", "facts": facts})
                     break
-                if not getattr(node, "blob_conn_cut", False):
+                inverted = op == "down_reset" and st["via"] != "state" and c01._inversion(node.applied, "CAM", "IMG")
+                if inverted:
+                    # the payload arrived on the BLOB connection before the re-definition on the control connection, which
+                    # then replaced the property: the two-connection ordering race (C01's K01/K04), not a BLOB transfer fault
+                    probes["redefinition_overtaken_by_blob"] = probes.get("redefinition_overtaken_by_blob", 0) + 1
+                if not getattr(node, "blob_conn_cut", False) and not inverted:
                     d = node.client.get_device("CAM")
                     iv = d.get_vector("IMG") if d else None
                     got = iv.get_element("B0").value if iv else None
